@@ -29,7 +29,7 @@ Definition event_eqb (a b : event) : bool :=
   match a, b with
   | EvCB s, EvCB t => site_eqb s t
   | EvExec i s, EvExec j t => Nat.eqb i j && list_eqb (list_eqb Z.eqb) s t
-  | EvRP m f, EvRP n g => optmode_eqb m n && list_eqb optZ_eqb f g
+  | EvRP m f s, EvRP n g t => optmode_eqb m n && list_eqb optZ_eqb f g && list_eqb (list_eqb Z.eqb) s t
   | _, _ => false
   end.
 
